@@ -14,10 +14,12 @@ Theorem C11_always_answers :
 Proof. exact handle_answers. Qed.
 Print Assumptions C11_always_answers.
 
-(* ... and so no sequential history of requests, websocket attempts, disconnections, clock changes and sweeps
-   ever contains an unanswered request *)
+(* ... and so no sequential history of requests, websocket attempts, disconnections, clock changes, sweeps and
+   timers ever contains an unanswered request - as long as the environment itself does not fail: the one modelled
+   environment fault (the random source failing while a code is being minted, OFaultedReq) makes uuid.New panic,
+   which the model shows as an unanswered request; it is excluded here and treated in C01_entropy_failure_mints_nothing *)
 Theorem C11_always_answers_history :
-  forall cfg t ops, ~ In (OutResp Panic) (snd (run cfg (init t) ops)).
+  forall cfg t ops, no_fault ops -> ~ In (OutResp Panic) (snd (run cfg (init t) ops)).
 Proof. intros cfg t ops. exact (run_never_faults cfg (init t) ops). Qed.
 Print Assumptions C11_always_answers_history.
 
